@@ -53,6 +53,9 @@ def hash_node(
                 if isinstance(value, (str, int))
                 if key not in {"lineno", "end_lineno", "col_offset", "end_col_offset"}
             )
+            if isinstance(child, ast.Constant):
+                # floats, bytes, None, ... and 1 vs True: constants that differ must not hash alike
+                things_to_hash.append((type(child.value).__name__, repr(child.value)))
         for name in names:
             if name in preserved_callable_names:
                 things_to_hash.append(name)
